@@ -197,6 +197,46 @@ def run(ctx: Ctx) -> None:
                 ctx.ob("R11.6", f"parser:CxxParser.{fname}|tokens consumed after get_doxygen_after()", not uniq,
                        msg=f"{fname} keeps consuming the declaration's tokens after the trailing-doc lookup ({', '.join(uniq[:4])}): a comment that trails the declaration on a later line than the lookup point is missed and falls to the next declaration",
                        node=c, mod=mod)
+    # ... and before anything beyond the declaration is consumed: fetching the separator (',' ';' '}') discards the
+    # comments in front of it, so a lookup placed after it finds nothing (the last enumerator loses its comment)
+    from ..typefacts import TypeFacts
+    SEPS = {",", ";", "}"}
+    for fname, fn in pm.methods.items():
+        cfg = pm.cfg(fname)
+        looks = [n for n in cfg.nodes for c, r in pm.node_calls(fname, n) if r == ("lex", "get_doxygen_after")]
+        if not looks:
+            continue
+        tf = TypeFacts(cfg, resolve=lambda c, _f=fname: pm.resolve(_f, c))
+        for n in looks:
+            offenders = []
+            seen = set()
+            st = [p_ for p_, lab in n.pred if lab != "exc"]
+            while st:
+                x = st.pop()
+                if x.id in seen or x is cfg.entry:
+                    continue
+                seen.add(x.id)
+                calls = pm.node_calls(fname, x)
+                if any(r == ("lex", "get_doxygen") for _, r in calls):
+                    continue  # the start of this declaration
+                for cc, rr in calls:
+                    if rr is None or not ((rr[0] == "lex" and rr[1] in LEX_CONSUME) or rr == ("self", "_next_token_must_be")):
+                        continue
+                    asked = {a.value for a in cc.args if isinstance(a, ast.Constant) and isinstance(a.value, str)} & SEPS
+                    if not asked:
+                        continue
+                    tv = x.stmt.targets[0].id if isinstance(x.stmt, ast.Assign) and len(x.stmt.targets) == 1 and isinstance(x.stmt.targets[0], ast.Name) and x.stmt.value is cc else None
+                    if tv is not None:
+                        k, S = tf.at(n, tv)
+                        # the token that call returned is known not to be a separator where the lookup happens
+                        if (k == "in" and not (set(S) & SEPS)) or (k == "notin" and asked <= set(S)):
+                            continue
+                    offenders.append(cc)
+                st.extend(p_ for p_, lab in x.pred if lab != "exc")
+            uniq = sorted({short(o, 50) for o in offenders})
+            ctx.ob("R11.6", f"parser:CxxParser.{fname}|no separator consumed before get_doxygen_after()", not uniq,
+                   msg=f"{fname} consumes the token that ends the declaration ({', '.join(uniq[:3])}) before it looks for the trailing comment: fetching that token discards the comment, so a declaration that is "
+                       "followed by the closing brace on the next line loses its same-line documentation", node=n.stmt, mod=mod)
     # aliases of the getters are only called where they are bound (parse binds get_doxygen locally) - covered by resolve()
 
     # ---------------------------------------------------------------- R11.4
